@@ -246,37 +246,40 @@ extern "C" {
     fn sched_setaffinity(pid: i32, cpusetsize: usize, mask: *const u8) -> i32;
 }
 
-/// Run `f` on a fresh thread that may only use the first `cpus` of the CPUs this process is
-/// allowed to use (so that `std::thread::available_parallelism` reports `cpus` there) and whose
-/// stack has `stack` bytes. `None` when the affinity could not be set (not Linux-like, or fewer
-/// CPUs than asked for); the closure is not run then.
+/// Restrict the calling thread to `cpus` of the CPUs it may use now, skipping the first `skip` of
+/// them, so that `std::thread::available_parallelism` reports `cpus` on it (threads and child
+/// processes started from it inherit the restriction). False when that is not possible (not
+/// Linux-like, fewer CPUs than asked for); the thread's affinity is unchanged then.
+pub fn restrict_this_thread(cpus: usize, skip: usize) -> bool {
+    let mut mask = [0u8; 128];
+    if cpus == 0 || unsafe { sched_getaffinity(0, mask.len(), mask.as_mut_ptr()) } != 0 {
+        return false;
+    }
+    let (mut seen, mut kept) = (0, 0);
+    for bit in 0..mask.len() * 8 {
+        if mask[bit / 8] >> (bit % 8) & 1 == 1 {
+            if seen < skip || kept >= cpus {
+                mask[bit / 8] &= !(1 << (bit % 8));
+            } else {
+                kept += 1;
+            }
+            seen += 1;
+        }
+    }
+    if kept < cpus || unsafe { sched_setaffinity(0, mask.len(), mask.as_ptr()) } != 0 {
+        return false;
+    }
+    std::thread::available_parallelism().map(|p| p.get()).unwrap_or(0) == cpus
+}
+
+/// Run `f` on a fresh thread that may only use the first `cpus` of the CPUs this thread is
+/// allowed to use and whose stack has `stack` bytes. `None` when the affinity could not be set;
+/// the closure is not run then.
 pub fn on_restricted_thread<T: Send>(cpus: usize, stack: usize, f: impl FnOnce() -> T + Send) -> Option<T> {
     std::thread::scope(|sc| {
         std::thread::Builder::new()
             .stack_size(stack)
-            .spawn_scoped(sc, move || {
-                let mut mask = [0u8; 128];
-                if unsafe { sched_getaffinity(0, mask.len(), mask.as_mut_ptr()) } != 0 {
-                    return None;
-                }
-                let mut kept = 0;
-                for bit in 0..mask.len() * 8 {
-                    if mask[bit / 8] >> (bit % 8) & 1 == 1 {
-                        if kept >= cpus {
-                            mask[bit / 8] &= !(1 << (bit % 8));
-                        } else {
-                            kept += 1;
-                        }
-                    }
-                }
-                if kept < cpus || unsafe { sched_setaffinity(0, mask.len(), mask.as_ptr()) } != 0 {
-                    return None;
-                }
-                if std::thread::available_parallelism().map(|p| p.get()).unwrap_or(0) != cpus {
-                    return None;
-                }
-                Some(f())
-            })
+            .spawn_scoped(sc, move || if restrict_this_thread(cpus, 0) { Some(f()) } else { None })
             .ok()?
             .join()
             .ok()?
